@@ -26,7 +26,6 @@ import (
 	"strings"
 
 	ethtypes "github.com/ethereum/go-ethereum/core/types"
-	"github.com/ontio/ontology/common"
 	"github.com/ontio/ontology/common/config"
 	"github.com/ontio/ontology/core/payload"
 	"github.com/ontio/ontology/core/store/ledgerstore"
@@ -47,17 +46,25 @@ type replayIn struct {
 	Extra   int  `json:"extra"` // extra blocks on the chain
 	Step    step `json:"step"`
 	Between int  `json:"between,omitempty"` // 0: plain pre-execution; 1/2: between ExecuteBlock and SubmitBlock (1 block / 2 competing blocks)
+	// CacheDB session histories: sessions 0..SessUpto-1 generated from SessSeed (session.go)
+	SessSeed int64 `json:"sess_seed,omitempty"`
+	SessUpto int   `json:"sess_upto,omitempty"`
+	// later-blocks scenario: the steps pre-executed before the blocks (later.go)
+	Later []step `json:"later,omitempty"`
 }
 
 type run struct {
-	x       *hx.Ctx
-	c       *chain
-	idx     int
-	extra   int
-	probe   *types.Block
-	stName  string         // Coq name of the state-store dump of this chain
-	pending *[]pendingCase // buffered correspondence cases (the store definitions must precede the first case)
-	seenErr map[string]bool
+	x         *hx.Ctx
+	c         *chain
+	idx       int
+	extra     int
+	probe     *types.Block
+	stName    string         // Coq name of the state-store dump of this chain
+	pending   *[]pendingCase // buffered correspondence cases (the store definitions must precede the first case)
+	seenErr   map[string]bool
+	rounds    []roundRec // blocks submitted after the pre-executions (between.go, later.go)
+	mainSnaps []snap     // ledger digest after each of them
+	flagged   []step     // steps on which the per-step oracle failed (candidate history for later divergences)
 }
 
 func firstN(s string, n int) string {
@@ -75,19 +82,15 @@ type pendingCase struct {
 func Run(x *hx.Ctx) {
 	x.CoqModule("Corr.C42")
 	var pend []pendingCase
+	var controls []pendingControl
 	var in replayIn
 	if x.ReplayInput(&in) {
-		r := newRun(x, 0, in.Extra, &pend)
-		if r != nil {
-			if in.Between > 0 {
-				if twinDir, ok := r.makeTwin(); ok {
-					r.twoPhase(twinDir, &in)
-				}
-			} else {
-				r.doStep(in.Step)
-				r.c.k.Close()
+		if r := newRun(x, 0, in.Extra, &pend); r != nil {
+			if pc := r.replay(&in); pc != nil {
+				controls = append(controls, *pc)
 			}
 		}
+		compareControls(x, controls)
 		flush(x, pend)
 		return
 	}
@@ -96,13 +99,8 @@ func Run(x *hx.Ctx) {
 		var ci replayIn
 		if json.Unmarshal(raw, &ci) == nil {
 			if r := newRun(x, idx, ci.Extra, &pend); r != nil {
-				if ci.Between > 0 {
-					if twinDir, ok := r.makeTwin(); ok {
-						r.twoPhase(twinDir, &ci)
-					}
-				} else {
-					r.doStep(ci.Step)
-					r.c.k.Close()
+				if pc := r.replay(&ci); pc != nil {
+					controls = append(controls, *pc)
 				}
 			}
 			idx++
@@ -115,9 +113,53 @@ func Run(x *hx.Ctx) {
 		if r == nil {
 			continue
 		}
-		r.everything()
+		if pc := r.everything(); pc != nil {
+			controls = append(controls, *pc)
+		}
 	}
+	compareControls(x, controls)
 	flush(x, pend)
+}
+
+// replay runs one recorded input: a plain pre-execution; a pre-execution between ExecuteBlock and
+// SubmitBlock; a list of pre-executions followed by later blocks; or CacheDB session histories.
+// Everything but the first ends with later blocks compared against the control process.
+func (r *run) replay(in *replayIn) *pendingControl {
+	switch {
+	case in.SessUpto > 0:
+		twinDir, ok := r.makeTwin()
+		if !ok {
+			return nil
+		}
+		r.sessions(in.SessSeed, in.SessUpto)
+		r.laterBlocks(2)
+		r.c.k.Close()
+		return &pendingControl{r: r, job: r.controlJobOf(twinDir)}
+	case in.Between > 0:
+		twinDir, ok := r.makeTwin()
+		if !ok {
+			return nil
+		}
+		r.twoPhase(twinDir, in)
+		r.laterBlocks(2)
+		r.c.k.Close()
+		return &pendingControl{r: r, job: r.controlJobOf(twinDir)}
+	case len(in.Later) > 0:
+		twinDir, ok := r.makeTwin()
+		if !ok {
+			return nil
+		}
+		for _, s := range in.Later {
+			r.doStep(s)
+		}
+		r.laterBlocks(4)
+		r.c.k.Close()
+		return &pendingControl{r: r, job: r.controlJobOf(twinDir)}
+	default:
+		r.doStep(in.Step)
+		r.c.k.Close()
+		return nil
+	}
 }
 
 func flush(x *hx.Ctx, pend []pendingCase) {
@@ -160,13 +202,16 @@ func newRun(x *hx.Ctx, idx, extra int, pend *[]pendingCase) *run {
 		x.Note(n)
 	}
 	r := &run{x: x, c: c, idx: idx, extra: extra, pending: pend, seenErr: map[string]bool{}}
-	// the probe block: a transfer, a contract storage write and an EVM storage write
+	// the probe block: two zero-fee read-only transactions first (their caches commit without
+	// having written anything), then a transfer, a contract storage write and an EVM storage write
+	r0a, _ := c.nativeTx(ledgerkit.OntAddr, "balanceOf", []interface{}{c.users[1].Address[:]}, nil)
+	r0b, _ := c.nativeTx(ledgerkit.OngAddr, "balanceOf", []interface{}{c.users[2].Address[:]}, nil)
 	t1, _ := c.k.TransferTx(ledgerkit.OntAddr, c.k.Acct, c.users[0].Address, 3, 0, 20000)
 	t2, _ := c.signedInvoke(neoCall(c.neoLive, []byte("k9"), []byte("probe"), false), c.k.Acct, 0, 100000)
 	var w [32]byte
 	w[31] = 0x99
 	_, t3, _ := c.ethTx(c.ethKeys[0], c.ethNonce[c.ethAddrs[0]], &c.evmStore, 0, 100000, 0, w[:])
-	probe, err := c.k.MakeBlock([]*types.Transaction{t1, t2, t3})
+	probe, err := c.k.MakeBlock([]*types.Transaction{r0a, r0b, t1, t2, t3})
 	if err != nil {
 		x.Note("probe block: " + err.Error())
 	}
@@ -291,6 +336,9 @@ func (r *run) doStep(s step) {
 		}
 	}
 	same := r.check(before, after, in, s.Kind+" via "+s.Entry)
+	if !same && len(r.flagged) < 4 {
+		r.flagged = append(r.flagged, s)
+	}
 	if b.writes && errText == "" && !panicked {
 		x.Nontrivial(s.Kind + "/" + s.Entry)
 		x.Count("writer-succeeded")
@@ -388,147 +436,6 @@ func (r *run) batches(n int) {
 	}
 }
 
-// sessions: CacheDB histories through GetCacheDB() over the real state store.
-func (r *run) sessions(n int) {
-	st := r.c.k.Store()
-	keys, _ := st.VerifC42StateDump()
-	var storageKeys [][]byte // keys under ST_STORAGE (prefix stripped)
-	var contracts []common.Address
-	for _, k := range keys {
-		if len(k) > 1 && k[0] == 5 {
-			storageKeys = append(storageKeys, k[1:])
-		}
-		if len(k) == 21 && (k[0] == 4 || k[0] == 6) {
-			var a common.Address
-			copy(a[:], k[1:])
-			contracts = append(contracts, a)
-		}
-	}
-	contracts = append(contracts, r.c.neoLive, r.c.neoDead, r.c.users[0].Address)
-	rnd := r.x.Rng
-	pickKey := func() []byte {
-		switch rnd.Intn(4) {
-		case 0, 1:
-			return append([]byte(nil), storageKeys[rnd.Intn(len(storageKeys))]...)
-		case 2:
-			k := append([]byte(nil), storageKeys[rnd.Intn(len(storageKeys))]...)
-			if len(k) > 20 {
-				k = k[:20+rnd.Intn(len(k)-20)]
-			}
-			return append(k, byte(rnd.Intn(256)))
-		default:
-			k := make([]byte, 1+rnd.Intn(24))
-			rnd.Read(k)
-			return k
-		}
-	}
-	pickPrefix := func() []byte {
-		k := storageKeys[rnd.Intn(len(storageKeys))]
-		switch rnd.Intn(12) {
-		case 0:
-			return nil // everything under ST_STORAGE
-		case 1, 2:
-			return []byte{byte(rnd.Intn(256))}
-		case 3, 4, 5, 6:
-			if len(k) >= 20 {
-				return append([]byte(nil), k[:20]...) // one contract's storage
-			}
-			return append([]byte(nil), k...)
-		case 7, 8:
-			return append([]byte(nil), k...)
-		default:
-			n := len(k)
-			if n > 20 {
-				n = 20 + rnd.Intn(n-19)
-			}
-			return append([]byte(nil), k[:n]...)
-		}
-	}
-	for i := 0; i < n; i++ {
-		before := r.c.takeSnap(nil)
-		cache := st.GetCacheDB()
-		var ops []string
-		var kinds []string
-		nops := 4 + rnd.Intn(14)
-		for j := 0; j < nops; j++ {
-			switch rnd.Intn(12) {
-			case 0, 1, 2:
-				k := pickKey()
-				v := make([]byte, 1+rnd.Intn(12))
-				rnd.Read(v)
-				cache.Put(k, v)
-				ops = append(ops, fmt.Sprintf("(SPut 5 %s %s, RNone)", hx.CoqBytes(k), hx.CoqBytes(v)))
-				kinds = append(kinds, "put")
-			case 3, 4:
-				k := pickKey()
-				cache.Delete(k)
-				ops = append(ops, fmt.Sprintf("(SDel 5 %s, RNone)", hx.CoqBytes(k)))
-				kinds = append(kinds, "delete")
-			case 5, 6, 7:
-				k := pickKey()
-				v, err := cache.Get(k)
-				if err != nil {
-					r.x.Note("CacheDB.Get error: " + err.Error())
-				}
-				ops = append(ops, fmt.Sprintf("(SGet 5 %s, RVal %s)", hx.CoqBytes(k), hx.CoqBytes(v)))
-				kinds = append(kinds, "get")
-			case 8, 9:
-				p := pickPrefix()
-				it := cache.NewIterator(p)
-				var ks, vs [][]byte
-				for ok := it.First(); ok; ok = it.Next() {
-					ks = append(ks, append([]byte(nil), it.Key()...))
-					vs = append(vs, append([]byte(nil), it.Value()...))
-				}
-				it.Release()
-				ops = append(ops, fmt.Sprintf("(SIter 5 %s, RList %s)", hx.CoqBytes(p), coqKvs(ks, vs)))
-				kinds = append(kinds, fmt.Sprintf("iter%d", len(ks)))
-			case 10:
-				if rnd.Intn(2) == 0 {
-					cache.Commit()
-					ops = append(ops, "(SCommit, RNone)")
-					kinds = append(kinds, "commit")
-				} else {
-					cache.Reset()
-					ops = append(ops, "(SReset, RNone)")
-					kinds = append(kinds, "reset")
-				}
-			default:
-				a := contracts[rnd.Intn(len(contracts))]
-				if rnd.Intn(2) == 0 {
-					d, err := cache.IsContractDestroyed(a)
-					if err != nil {
-						r.x.Note("IsContractDestroyed error: " + err.Error())
-					}
-					ops = append(ops, fmt.Sprintf("(SGet 6 %s, RFlag %s)", hx.CoqBytes(a[:]), hx.CoqBool(d)))
-					kinds = append(kinds, "is-destroyed")
-				} else {
-					h := uint32(rnd.Intn(1000))
-					cache.DeleteContract(a, h)
-					hb := []byte{byte(h), byte(h >> 8), 0, 0}
-					ops = append(ops, fmt.Sprintf("(SDel 4 %s, RNone)", hx.CoqBytes(a[:])))
-					if config.GetTrackDestroyedContractHeight() <= h {
-						ops = append(ops, fmt.Sprintf("(SPut 6 %s %s, RNone)", hx.CoqBytes(a[:]), hx.CoqBytes(hb)))
-					}
-					kinds = append(kinds, "delete-contract")
-				}
-			}
-		}
-		r.x.Eval()
-		after := r.c.takeSnap(nil)
-		same := r.check(before, after, map[string]interface{}{"session": kinds}, "CacheDB session through GetCacheDB")
-		r.emit(fmt.Sprintf("CSession %s %d %s %s", r.stName, st.GetCurrentBlockHeight(), hx.CoqList(ops), hx.CoqBool(same)),
-			map[string]interface{}{"session": kinds})
-		for _, k := range kinds {
-			if strings.HasPrefix(k, "iter") {
-				k = "iter"
-			}
-			r.x.Count("session-op:" + k)
-		}
-		r.x.Nontrivial(fmt.Sprintf("session/%d/%d", r.idx, i))
-	}
-}
-
 // makeTwin copies the data directory (closed for the copy) before any pre-execution.
 func (r *run) makeTwin() (string, bool) {
 	x, c := r.x, r.c
@@ -545,12 +452,12 @@ func (r *run) makeTwin() (string, bool) {
 }
 
 // everything: the whole scenario on one chain.
-func (r *run) everything() {
+func (r *run) everything() *pendingControl {
 	x := r.x
 	c := r.c
 	twinDir, ok := r.makeTwin()
 	if !ok {
-		return
+		return nil
 	}
 	gas0 := gasDigest()
 	// every kind through every entry point, then random ones
@@ -578,14 +485,14 @@ func (r *run) everything() {
 		r.doStep(s)
 	}
 	r.batches(x.N(12, 60))
-	r.sessions(x.N(16, 150))
+	r.sessions(x.Rng.Int63(), x.N(16, 150))
 
 	// restart: the reopened ledger is the ledger from before the pre-executions
 	first := c.takeSnap(r.probe)
 	c.k.Close()
 	if err := c.k.Open(); err != nil {
 		x.Fail("preexec-changed:reopen-fails", "the ledger reopens after pre-executions", map[string]int{"chain": r.idx}, err.Error(), "reopen")
-		return
+		return nil
 	}
 	reopened := c.takeSnap(r.probe)
 	delete(first, "file:wal-sizes") // reopening rotates the write-ahead logs
@@ -594,9 +501,13 @@ func (r *run) everything() {
 	if g := gasDigest(); g != gas0 {
 		x.Fail("preexec-changed:global:gas-table", "the gas table after all pre-executions is the one before", map[string]int{"chain": r.idx}, g, gas0)
 	}
-	// two-phase consensus sequence with pre-executions between ExecuteBlock and SubmitBlock,
-	// against the twin that never pre-executed (between.go)
+	// two-phase consensus sequence with pre-executions between ExecuteBlock and SubmitBlock
+	// (between.go), then blocks with no pre-execution at all (later.go); the control process
+	// replays all of them on the twin directory
 	r.twoPhase(twinDir, nil)
+	r.laterBlocks(x.N(4, 8))
+	c.k.Close()
+	return &pendingControl{r: r, job: r.controlJobOf(twinDir)}
 }
 
 func max0(n int) int {
